@@ -5,6 +5,7 @@
 //         M pool <pid> <fixed> <keepAll> <gran> <fixedBytes> <freeCb>   create a pool (main thread, before the phase's threads)
 //         <t> dchurn <pid> <slot> <size> <log2 align|0>   scalable_malloc/aligned_malloc + free on the DEFAULT pool (same thread; slot unused)
 //         M fail <pid> <k> <count>                      raw-alloc calls number k .. k+count-1 of that pool fail (k=0: none)
+//         <t> ddrain <pid> <slot> 0                      take (and keep) everything the DEFAULT pool can give without asking the OS
 //         M osfail <pid> <0|1>                          refuse (1) / allow (0) tbbmalloc's own requests to the OS (not the pools' raw callbacks)
 //         M reset <pid> | M destroy <pid>
 //         <t> [!]pmalloc <pid> <slot> <size>            `!` = must succeed (recovery check)
@@ -48,7 +49,8 @@ struct Op {
     unsigned need;
     bool must;
 };
-enum { PMALLOC, PAMALLOC, PREALLOC, PAREALLOC, PFREE, PMSIZE, DCHURN };
+enum { PMALLOC, PAMALLOC, PREALLOC, PAREALLOC, PFREE, PMSIZE, DCHURN, DDRAIN };
+static std::vector<void *> g_drained;
 struct MOp { int line; std::string what; long long pid, a, b, c, d, e; };
 
 struct Slot {
@@ -276,6 +278,13 @@ static void run_op(const Op &op) {
         if (p) { memset(p, 0x5a, op.a < 4096 ? op.a : 4096); if (op.b) scalable_aligned_free(p); else scalable_free(p); }
         break;
     }
+    case DDRAIN: {
+        // take everything the DEFAULT pool can still give without asking the OS (use while `osfail` is on), largest pieces first, and keep it
+        // until the end of the run: afterwards the library's own structures cannot grow
+        for (size_t sz : {(size_t)1 << 20, (size_t)200000, (size_t)70000, (size_t)40000, (size_t)20000, (size_t)9000})
+            for (int i = 0; i < 100000; ++i) { void *q = scalable_malloc(sz); if (!q) break; g_drained.push_back(q); }
+        break;
+    }
     case PMSIZE:
         if (s.p && s.pid == op.pid) {
             size_t m = rml::pool_msize(c.pool, s.p);
@@ -331,7 +340,7 @@ int main() {
     std::vector<unsigned> cnt;
     char line[256];
     int ln = 0, maxslot = -1;
-    static const char *names[] = {"pmalloc", "pamalloc", "prealloc", "parealloc", "pfree", "pmsize", "dchurn"};
+    static const char *names[] = {"pmalloc", "pamalloc", "prealloc", "parealloc", "pfree", "pmsize", "dchurn", "ddrain"};
     while (fgets(line, sizeof line, stdin)) {
         ln++;
         char w0[32] = {0}, w1[32] = {0};
@@ -349,7 +358,7 @@ int main() {
         bool must = w1[0] == '!';
         const char *nm = must ? w1 + 1 : w1;
         int kind = -1;
-        for (int i = 0; i < 7; i++) if (!strcmp(nm, names[i])) kind = i;
+        for (int i = 0; i < 8; i++) if (!strcmp(nm, names[i])) kind = i;
         if (kind < 0 || n < 4 || v[0] < 0 || v[0] >= 8 || v[1] < 0 || v[1] > 1000000) { printf("bad-op line=%d\n", ln); return 2; }
         Op op{ln, atoi(w0), kind, (int)v[0], (int)v[1], (size_t)v[2], (size_t)v[3], 0, must};
         if (op.thread < 0 || op.thread >= phases.back().T) { printf("bad-op line=%d\n", ln); return 2; }
@@ -373,6 +382,8 @@ int main() {
     }
     for (int i = 0; i < 8; i++)
         if (g_pools[i].alive) { MOp m{0, "destroy", i, 0, 0, 0, 0, 0}; run_mop(m); }
+    g_os_fail = 0;
+    for (void *q : g_drained) scalable_free(q);
     printf("done ops=%d violations=%d nulls=%d\n", nops, g_viol.load(), g_nulls.load());
     return g_viol.load() ? 3 : 0;
 }
